@@ -18,6 +18,7 @@ type c04Conn struct {
 }
 
 type c04Scenario struct {
+	WSAddr    string     `json:"websocket_address,omitempty"` // the WebSocket sub-scenario: a server that only speaks clear-text XMPP over WebSocket
 	Client    ClientOpts `json:"client"`
 	Conns     []c04Conn  `json:"connections"`
 	Seg       int        `json:"segmentation"`
@@ -39,6 +40,9 @@ func runC04(e *Engine, g G, o RunOpt) RunInfo {
 	sc.Client = genClientOpts(g)
 	sc.Client.SM = false
 	sc.Client.OAuth = false
+	if g.Pct("websocket-address", 10) {
+		return runC04WS(e, g, sc)
+	}
 	n := 1 + g.Weighted("nconns", 5, 3, 2)
 	if o.Avoiding("tls-state-stale-across-reconnect") {
 		n = 1
@@ -177,4 +181,68 @@ func kindOnly(k string) string {
 		return k[:i]
 	}
 	return k
+}
+
+// runC04WS: the configured address names a WebSocket endpoint that is reachable in clear text
+// only (ws:, in any spelling of the scheme). Unless Insecure is set nothing sensitive may be
+// written to it - whichever transport the address selects.
+func runC04WS(e *Engine, g G, sc *c04Scenario) RunInfo {
+	scheme := []string{"ws", "ws", "WS", "Ws", "wS"}[g.N("scheme", 5)]
+	sc.WSAddr = scheme + SimWSAddr[2:]
+	sc.Client.Address = sc.WSAddr
+	sc.Client.WebSocket = true
+	var ws *WSServer
+	var err error
+	created := false
+	e.Run(func() {
+		ws = NewWSServer(e)
+		defer ws.Stop()
+		w := NewCW(e, sc.Client, sharedCerts())
+		w.CatchAll()
+		if cerr := w.Create(); cerr != nil {
+			return
+		}
+		created = true
+		err, _ = e.Call("Connect", w.Client.Connect)
+		e.Sleep(time.Duration(sc.Client.ConnectTimeout+5) * time.Second)
+		if err == nil {
+			e.Call("Disconnect", w.Client.Disconnect)
+			e.Sleep(time.Duration(sc.Client.ConnectTimeout+5) * time.Second)
+		}
+	})
+	info := RunInfo{Scenario: sc, Nontrivial: created && e.Net.Dials > 0}
+	if e.Stuck != "" {
+		e.Violate("C04", "hang", "%s", e.Stuck)
+	}
+	for _, p := range e.Panics {
+		e.Violate("C04", "panic:"+panicSite(p), "%s: %s", p.Where, p.Value)
+	}
+	if !created {
+		return info
+	}
+	e.Probe("c04.websocket_address")
+	for _, c := range ws.Conns {
+		for _, el := range c.Recv {
+			k := ""
+			switch {
+			case el.Is(nsSASL, "auth"):
+				k = "auth"
+			case el.Local == "iq" || el.Local == "message" || el.Local == "presence":
+				k = "stanza:" + el.Local
+			case el.Is(nsSM, "enable") || el.Is(nsSM, "resume"):
+				k = el.Local
+			}
+			if k != "" && !sc.Client.Insecure {
+				e.Violate("C04", "cleartext-websocket:"+k, "Insecure=false, address %q: <%s> was written on a WebSocket connection without TLS (Connect returned %v)", sc.WSAddr, k, err)
+				return info
+			}
+		}
+	}
+	if !sc.Client.Insecure && err == nil {
+		e.Violate("C04", "connected-without-tls", "Insecure=false, address %q reachable only in clear text: Connect succeeded", sc.WSAddr)
+	}
+	if sc.Client.Insecure && scheme == "ws" && err != nil {
+		e.Violate("C04", "insecure-mode-refused", "Insecure=true, address %q: Connect failed: %v", sc.WSAddr, err)
+	}
+	return info
 }
